@@ -27,6 +27,7 @@ func init() {
 	kinds[0x1803] = run1803
 	kinds[0x1804] = run1804
 	kinds[0x1805] = run1805
+	kinds[0x1806] = run1806
 	props["C18"] = genC18
 }
 
@@ -41,7 +42,9 @@ type c18FS struct {
 
 type c18Budget struct{}
 
-const c18WalkBudget = 300000
+// the generated trees have at most a dozen entries and three requests: no legitimate resolution
+// needs 150 walks (measured over the thorough tier); 3000 keeps a runaway case at ~0.1 s
+const c18WalkBudget = 3000
 
 func (f *c18FS) Walk(ctx context.Context, target string, fn gofs.WalkDirFunc) error {
 	f.walks++
@@ -58,6 +61,25 @@ func (f *c18FS) Walk(ctx context.Context, target string, fn gofs.WalkDirFunc) er
 }
 
 func (f *c18FS) Open(p string) (io.ReadCloser, error) { return f.m.Open(p) }
+
+// c18Budgeted: any FS under a walk budget (the real disk FS has no other bound: a resolver
+// that lost its cycle guard would recurse until the stack is gone and take the harness with it)
+type c18Budgeted struct {
+	fs    fsutil.FS
+	walks int
+}
+
+const c18DiskWalkBudget = 3000
+
+func (f *c18Budgeted) Walk(ctx context.Context, target string, fn gofs.WalkDirFunc) error {
+	f.walks++
+	if f.walks > c18DiskWalkBudget {
+		panic(c18Budget{})
+	}
+	return f.fs.Walk(ctx, target, fn)
+}
+
+func (f *c18Budgeted) Open(p string) (io.ReadCloser, error) { return f.fs.Open(p) }
 
 // c18Follow runs the real FollowLinks under a watchdog.
 // (#0 nil? (path ...)) | (#1 msg) error | (#2) hang / walk budget exhausted | (#3 msg) panic
@@ -133,7 +155,7 @@ func run1804(in Sx) Sx {
 	if err != nil {
 		return L(N(1), S("newfs"))
 	}
-	return c18Follow(fs, reqs)
+	return c18Follow(&c18Budgeted{fs: fs}, reqs)
 }
 
 func run1802(in Sx) Sx {
@@ -197,6 +219,138 @@ func run1805(in Sx) (out Sx) {
 	case <-time.After(5 * time.Second):
 		return L(N(2))
 	}
+}
+
+// ---------------------------------------------------------------- kind 1806: the transfer itself
+// input = (view (req ...) ((alias first) ...)): the view is written to disk, except that every
+// entry listed as an alias is created as a further NAME (hard link, link(2) without following)
+// of the symlink at path `first` - the view holds both as symlinks with the same target.  The
+// tree is then sent through the real NewFS -> NewFilterFS(FollowPaths: reqs) -> Send / Receive
+// into an empty directory, and the copy is read back with plain lstat/readlink/readfile.
+// out = (#0 copy-view) | (#1 msg) | (#2) hang
+func c18WithoutAliases(roots []*MNode, prefix string, alias map[string]bool) []*MNode {
+	var out []*MNode
+	for _, n := range roots {
+		p := n.Name
+		if prefix != "" {
+			p = prefix + "/" + n.Name
+		}
+		if alias[p] {
+			continue
+		}
+		c := *n
+		c.Kids = c18WithoutAliases(n.Kids, p, alias)
+		out = append(out, &c)
+	}
+	return out
+}
+
+// c18ReadTree: an independent reading of a directory as a view (type, permission bits, link
+// target, content; nothing else is compared by the oracle)
+func c18ReadTree(dir string) ([]*MNode, error) {
+	des, err := os.ReadDir(dir)
+	if err != nil {
+		return nil, err
+	}
+	var out []*MNode
+	for _, de := range des {
+		p := filepath.Join(dir, de.Name())
+		fi, err := os.Lstat(p)
+		if err != nil {
+			return nil, err
+		}
+		n := &MNode{Name: de.Name(), Stat: &types.Stat{Mode: uint32(fi.Mode() & (os.ModeType | os.ModePerm))}}
+		switch {
+		case fi.IsDir():
+			if n.Kids, err = c18ReadTree(p); err != nil {
+				return nil, err
+			}
+		case fi.Mode()&os.ModeSymlink != 0:
+			if n.Stat.Linkname, err = os.Readlink(p); err != nil {
+				return nil, err
+			}
+		case fi.Mode().IsRegular():
+			if n.Content, err = os.ReadFile(p); err != nil {
+				return nil, err
+			}
+			n.Stat.Size = int64(len(n.Content))
+		}
+		out = append(out, n)
+	}
+	sort.Slice(out, func(a, b int) bool { return out[a].Name < out[b].Name })
+	return out, nil
+}
+
+// c18NewFilterFS: NewFilterFS(fs, FollowPaths) with the resolver under the walk budget; (nil, nil)
+// when the budget was exhausted.  The budget counter is reset for the walk of the transfer.
+func c18NewFilterFS(fs fsutil.FS, reqs []string) (res fsutil.FS, err error) {
+	b := &c18Budgeted{fs: fs}
+	defer func() {
+		if r := recover(); r != nil {
+			if _, ok := r.(c18Budget); ok {
+				res, err = nil, nil
+				return
+			}
+			panic(r)
+		}
+	}()
+	res, err = fsutil.NewFilterFS(b, &fsutil.FilterOpt{FollowPaths: reqs})
+	b.walks = -1 << 40
+	return res, err
+}
+
+func run1806(in Sx) (out Sx) {
+	defer func() {
+		if r := recover(); r != nil {
+			out = L(N(1), S("panic: "+fmt.Sprint(r)))
+		}
+	}()
+	roots, reqs := c18Case(in)
+	alias := map[string]bool{}
+	for _, a := range in.L[2].L {
+		alias[a.L[0].Str()] = true
+	}
+	base := WorkDir("c18t-")
+	defer os.RemoveAll(base)
+	src, dst := filepath.Join(base, "src"), filepath.Join(base, "dst")
+	if err := os.Mkdir(src, 0755); err != nil {
+		return L(N(1), S("mkdir"))
+	}
+	if err := os.Mkdir(dst, 0755); err != nil {
+		return L(N(1), S("mkdir"))
+	}
+	if err := Materialize(c18WithoutAliases(roots, "", alias), src); err != nil {
+		return L(N(1), S("materialize"))
+	}
+	for _, a := range in.L[2].L {
+		if err := os.Link(filepath.Join(src, a.L[1].Str()), filepath.Join(src, a.L[0].Str())); err != nil {
+			return L(N(1), S("link"))
+		}
+	}
+	fs, err := fsutil.NewFS(src)
+	if err != nil {
+		return L(N(1), S("newfs"))
+	}
+	// FollowLinks runs inside NewFilterFS: under the walk budget; the transfer walks the plain FS
+	ffs, err := c18NewFilterFS(fs, reqs)
+	if err != nil {
+		return L(N(1), S("newfilterfs"))
+	}
+	if ffs == nil {
+		return L(N(2))
+	}
+	res := RunTransfer(TransferCfg{Src: ffs, Dest: dst, Timeout: 10 * time.Second})
+	if res.Hung {
+		return L(N(2))
+	}
+	if res.SendErr != nil || res.RecvErr != nil {
+		return L(N(1), S("transfer"))
+	}
+	copyv, err := c18ReadTree(dst)
+	if err != nil {
+		return L(N(1), S("readtree"))
+	}
+	return L(N(0), ViewSx(copyv))
 }
 
 // ---------------------------------------------------------------- generator
@@ -501,6 +655,70 @@ func c18PatternFor(r *Rng, name string) string {
 	return name[:1] + "*"
 }
 
+// c18AddAliases: further names for some of the symlinks of the view - in the same directory or
+// in another one - entered into the view as symlinks with the same target text.  Returns the
+// (alias, first) pairs and requests that select both names (directly or through the alias).
+func c18AddAliases(r *Rng, roots *[]*MNode, ents []c18Entry, names []string) ([][2]string, []string) {
+	var links []c18Entry
+	dirs := map[string]*MNode{}
+	dirPaths := []string{""}
+	for _, e := range ents {
+		if e.isLnk {
+			links = append(links, e)
+		}
+		if e.isDir {
+			dirs[e.path] = e.node
+			dirPaths = append(dirPaths, e.path)
+		}
+	}
+	var out [][2]string
+	var reqs []string
+	if len(links) == 0 || r.Chance(20) {
+		return nil, nil
+	}
+	n := 1 + r.Intn(2)
+	for i := 0; i < n; i++ {
+		l := Pick(r, links)
+		d := c18Parent(l.path)
+		if r.Chance(35) {
+			d = Pick(r, dirPaths)
+		}
+		kids := roots
+		if d != "" {
+			kids = &dirs[d].Kids
+		}
+		name := Pick(r, names)
+		if r.Bool() {
+			name = l.node.Name + Pick(r, []string{"2", "~", ".lnk", "0"})
+		}
+		if strings.Contains(name, "[") {
+			continue
+		}
+		dup := false
+		for _, k := range *kids {
+			if k.Name == name {
+				dup = true
+			}
+		}
+		if dup {
+			continue
+		}
+		p := name
+		if d != "" {
+			p = d + "/" + name
+		}
+		*kids = append(*kids, &MNode{Name: name, Stat: l.node.Stat.CloneVT()})
+		ks := *kids
+		sort.Slice(ks, func(a, b int) bool { return ks[a].Name < ks[b].Name })
+		out = append(out, [2]string{p, l.path})
+		reqs = append(reqs, l.path, p)
+		if r.Chance(30) {
+			reqs = append(reqs, p+"/"+Pick(r, names))
+		}
+	}
+	return out, reqs
+}
+
 func c18Input(roots []*MNode, reqs []string) Sx {
 	rs := make([]Sx, len(reqs))
 	for i, q := range reqs {
@@ -583,6 +801,25 @@ func genC18(g *Gen) {
 		if i%4 == 1 || strings.HasSuffix(cls, "wild-mid") {
 			g.Emit(0x1805, in, nontriv, "filter/"+oc)
 		}
+	}
+	// (c2) the transfer itself, on disk, with symlink inodes that have several names
+	nT := g.Vol(260, 6000)
+	for i := 0; i < nT; i++ {
+		rich := i%3 == 2
+		names := c18Pool(r, rich, i%4 == 3)
+		roots, ents := c18GenView(r, names, true)
+		if !c18Materialisable(ents) {
+			continue
+		}
+		reqs, cls := c18GenReqs(r, ents, names, true)
+		aliases, areqs := c18AddAliases(r, &roots, ents, names)
+		reqs = append(reqs, areqs...)
+		al := make([]Sx, len(aliases))
+		for k, a := range aliases {
+			al[k] = L(S(a[0]), S(a[1]))
+		}
+		in := L(ViewSx(roots), c18Input(roots, reqs).L[1], L(al...))
+		g.Emit(0x1806, in, len(aliases) > 0, fmt.Sprintf("transfer/%s/alias%d", cls, minInt(len(aliases), 2)))
 	}
 	// (d) filepath.Match against go_match
 	pat := []string{"a", "b", "*", "?", "[", "]", "-", "^", "\\", "é", "\x80", "\xe6", ".", "c", "日", "a-c", "[a-c]", "[^b]", "**"}
